@@ -141,7 +141,7 @@ impl Park {
 
         // before a new yield wait the kernel done
         while self.wait_kernel.load(Ordering::Acquire) {
-            yield_now();
+            wait_kernel_yield();
         }
 
         self.timeout.store(dur);
@@ -174,6 +174,18 @@ impl Park {
     }
 }
 
+// waiting for the kernel half must not be a cancellation point
+fn wait_kernel_yield() {
+    if crate::coroutine_impl::is_coroutine() {
+        let cancel = crate::coroutine_impl::current_cancel_data();
+        cancel.disable_cancel();
+        yield_now();
+        cancel.enable_cancel();
+    } else {
+        yield_now();
+    }
+}
+
 impl Drop for DropGuard<'_> {
     fn drop(&mut self) {
         self.0.wait_kernel.store(false, Ordering::Release);
@@ -184,7 +196,7 @@ impl Drop for Park {
     fn drop(&mut self) {
         // wait the kernel finish
         while self.wait_kernel.load(Ordering::Acquire) {
-            yield_now();
+            wait_kernel_yield();
         }
 
         self.set_timeout_handle(None);
